@@ -83,7 +83,7 @@ def specs(tier):
 
 
 def shards(tier):
-    return [('bfs', i) for i in range(len(specs(tier)))]
+    return [('bfs', i) for i in range(len(specs(tier)))] + [('two-sessions', 0)]
 
 
 def bounds(tier):
@@ -239,7 +239,51 @@ def explore(td, spec, acc, maxdepth=3):  # maxdepth: number of quit/resume cycle
     return fails
 
 
+SESSION_PAIRS = [('run2', 'run2a'), ('test', 'tests'), ('default_run', 'default_run.v'), ('job', 'job.sav')]
+
+
+def run_two_sessions(acc):
+    """E-hist over TWO named sessions in one directory: A is quit inside a Markov level, B (another session name, chosen to look alike) is started and
+    quit inside another Markov level, then A is resumed.  What the resumed A writes is what it writes when B never ran."""
+    spec = specs('quick')[5]
+    td = tree.scratch_tree()
+    R.write_ruleset(os.path.join(td, 'Rules', 'v'), spec)
+    lab, pts = labelled_language(spec)
+    U = S.run_guesser(td, ['-r', 'v'])
+    if U.exc:
+        raise RuntimeError('harness: reference run failed: ' + U.exc)
+    inside = [j for j in range(1, len(U.stdout)) if lab[U.stdout[j - 1]][0][0] == 'M' and lab[U.stdout[j]] == lab[U.stdout[j - 1]]]
+    for a, b in SESSION_PAIRS:
+        for ja in inside:
+            for jb in sorted(set([inside[0], inside[len(inside) // 2], inside[-1]])):
+                if ja == jb:
+                    continue
+                for nm in (a, b):
+                    S.clear_session(td, nm)
+                A = S.run_guesser(td, ['-r', 'v', '-s', a], quit_after=ja, session=a)
+                if A.exc or A.sav_raw is None:
+                    continue
+                ref = S.run_guesser(td, ['-r', 'v', '-s', a, '--load'], session=a)
+                S.set_session(td, A.sav_raw, A.omn, session=a)
+                B = S.run_guesser(td, ['-r', 'v', '-s', b], quit_after=jb, session=b)
+                RA = S.run_guesser(td, ['-r', 'v', '-s', a, '--load'], session=a)
+                acc.evals += 1
+                acc.transitions += 3
+                acc.nontrivial += 1
+                case = {'layer': 'two-sessions', 'names': [a, b], 'quit_a': ja, 'quit_b': jb}
+                if RA.exc or ref.exc or B.exc:
+                    acc.fail(case, 'sessions %r / %r: a run raised %s' % (a, b, (RA.exc or ref.exc or B.exc).strip().splitlines()[-1]), 'crash')
+                elif RA.stdout != ref.stdout:
+                    d = next((x for x in range(min(len(ref.stdout), len(RA.stdout))) if ref.stdout[x] != RA.stdout[x]), min(len(ref.stdout), len(RA.stdout)))
+                    acc.fail(case, 'session %r quit after guess %d (inside a Markov level), then session %r quit after guess %d: the resumed %r writes %r.. instead of %r.. '
+                             '(first difference at line %d; %d lines instead of %d) - what another session did changed it'
+                             % (a, ja, b, jb, a, RA.stdout[d:d + 3], ref.stdout[d:d + 3], d + 1, len(RA.stdout), len(ref.stdout)), 'sessions-interfere')
+    tree.rmtree(td)
+
+
 def run_shard(shard, tier, acc):
+    if shard[0] == 'two-sessions':
+        return run_two_sessions(acc)
     _, i = shard
     spec = specs(tier)[i]
     td = tree.scratch_tree()
@@ -256,5 +300,9 @@ def run_shard(shard, tier, acc):
 def replay(case):
     from ..runner import Acc
     acc = Acc()
+    if case.get('layer') == 'two-sessions':
+        run_two_sessions(acc)
+        fs = [f for f in acc.failures if f['case'] == case]
+        return fs[0]['msg'] if fs else None
     run_shard(('bfs', case['spec_index']), 'thorough', acc)
     return acc.failures[0]['msg'] if acc.failures else None
